@@ -11,7 +11,8 @@ CLAIMS = {
         text="Static dimension type-check of every published relation of all 694 catalogue modules: an abstract interpreter over SI "
              "dimension vectors decides H1-H4 for each relation whose operands it can resolve (>= 92% enforced, ~98% today) and reports only "
              "definite mismatches. Dimension is a property of the formula, so a decided relation is decided for all values of its symbols; "
-             "this is what per-law numeric tests cannot give, and it covers the modules that have no test at all.",
+             "this is what per-law numeric tests cannot give, and it covers the modules that have no test at all. H6 ties the engine's reading of "
+             "declarations to the constructors: Symbol/Function/IndexedSymbol store their `dimension` argument unchanged.",
         note="Trusts SymPy's unit/dimension definition sources and that Symbol/Function/clone_* carry the dimension they are declared with "
              "(C09 checks the forwarding). Relations the evaluator cannot type (plain SymPy symbols, Laplacian, symbolic exponents of "
              "dimensional bases) are listed in the evidence, not decided. log() of a dimensional argument is deliberately not reported.",
@@ -19,15 +20,16 @@ CLAIMS = {
     "C02": dict(
         text="Structural necessary conditions, exhaustive over all 685 calculate_* functions: provenance of the returned value from the "
              "module's own law (slice), absence of arithmetic between the law-derived value and return (def-use path), dimension agreement of "
-             "guard table vs substitution table and of solved-for symbol vs declared output (dimension engine). The numerical relation itself "
-             "is not decided and is said so.",
+             "guard table vs substitution table and of solved-for symbol vs declared output (dimension engine); clamps (multi-argument min/max), "
+             "assumption-forcing rewrites (force=True, posify) anywhere on the way to a result, and a snapping Probability wrapper are reported. "
+             "The numerical relation itself is not decided and is said so.",
         note="Decides the shape of the code, not SymPy's solve/subs/evaluation; swapping two same-dimension parameters or choosing another "
              "root is invisible. One frozen exception (unit tag `* units.radian`).",
         technique="backward slicing / taint over statement CFGs + dimension type-check of decorator and substitution tables", ref="DESIGN.md §2 C02"),
     "C04": dict(
         text="Exhaustive set comparison of every guard declaration against the decorated function's parameters (1751 guards) and typing of "
              "every guard expression (2398), plus must-pass-through / dominance / slice rules K1-K7 over the ~150 lines of gate code that "
-             "every guarded call goes through. A guard that names no parameter is silently ignored at run time, so only this comparison "
+             "every guarded call goes through (every checked component derives from its element; no truncating zip over vector components). A guard that names no parameter is silently ignored at run time, so only this comparison "
              "finds it; the path rules hold for every argument tuple and call style because they are facts about all CFG paths.",
         note="Trusts SymPy's equivalent_dims/is_dimensionless and inspect.signature.bind. One recorded known finding (guard `position_vector` "
              "pinned by an existing test).",
@@ -46,7 +48,9 @@ CLAIMS = {
              "module has an import-time effect on foreign objects or global SymPy state and the name counters have a single +1 writer "
              "(I3); symbolic wrappers cannot alias through SymPy's display-string-keyed symbol cache (I4); every function symbol is applied "
              "with its declared arity at import (I5); no .subs mapping of a catalogue module chains two plain-symbol replacements whose "
-             "order SymPy derives from generated names (I6); the counter table is process-wide (no thread-local storage). These are statements about all import orders / histories that one test order cannot "
+             "order SymPy derives from generated names (I6, also for applied functions, values reached through constructions and a caller's "
+             "free-form expression); no positional use of name-ordered collections such as solve(..., dict=True)[k].values() (I7); the import simulator "
+             "also replays attribute reads on partially initialised sub-modules; the counter table is process-wide. These are statements about all import orders / histories that one test order cannot "
              "give; six catalogue modules are imported by no test at all.",
         note="Does NOT decide that derivation asserts and solve(...)[k]/simplify pick the same branch under every state of the SYM<n> "
              "counters (SymPy's name-driven ordering); imports inside functions are not import-time dependencies; foreign packages are "
@@ -56,7 +60,8 @@ CLAIMS = {
         text="Structural necessary conditions of a compositional collector on collect_quantity.py and Quantity.__init__: children coverage "
              "(every child is passed, itself, to the recursive collector on every path), complete and correctly ordered first-match dispatch, "
              "refusal discipline (equivalent_dims + any-dimension escape for both operands, dimensionless exponent/arguments, unevaluated "
-             "derivative, free symbols, complex(scale) before registration), homomorphism shape of the Mul/Add/Pow handlers. They hold for "
+             "derivative, free symbols, complex(scale) before registration, the registered scale untouched by anything but the collector), "
+             "homomorphism shape of the Mul/Add/Pow handlers, and use of every collected factor on every path of its iteration. They hold for "
              "all expression trees because they are facts about every path of each handler.",
         note="The value-level statement (scale factor = SI value, dimension = dimensional product, for all trees) is not decided; only "
              "operator kinds and data dependence are examined. Trusts SymPy's expression-tree API.",
@@ -80,7 +85,8 @@ CLAIMS = {
         text="Fresh-name provenance for every constructor that creates a SymPy object (the name is next_name(<literal>) on every path, never "
              "data-dependent on display names), injectivity of (prefix, counter) -> name, single monotone writer of the counters, clone "
              "helpers forwarding dimension / both display names / subscript / assumptions (sibling cross-check), printers showing display "
-             "names; no identity override or constructor cache on the symbol classes; coordinate-system factories return a fresh object on every path. These quantify over all creation sequences because they are facts about every path of the constructors.",
+             "names (also no `__name__` of a library function in the printers' helpers); no identity override or constructor cache on the symbol classes; "
+             "coordinate-system factories return a fresh object on every path; every other call of a name-keyed SymPy base constructor in core/docs is held to the same rule. These quantify over all creation sequences because they are facts about every path of the constructors.",
         note="Trusts that SymPy treats differently named symbols as distinct under subs/solve/diff. One frozen exception (IndexedSymbol re-created "
              "from an existing SymPy symbol). One defect found and repaired (clone_as_function dropped assumptions).",
         technique="backward slices of constructor name arguments; who-may-write; sibling agreement of clone helpers", ref="DESIGN.md §2 C09"),
@@ -110,8 +116,8 @@ CLAIMS = {
              "transformation table by C11/T6). Behaviour-preserving algebraic rewrites do not fire.",
         technique="abstract evaluation of the operator code over generic fields + formal derivation + exact normal form of rational functions with sin^2+cos^2=1", ref="DESIGN.md §2 C12"),
     "C13": dict(
-        text="Only the structural clause: the six circulation/flux routines are evaluated abstractly with a generic field value and generic "
-             "parametrisations (undefined functions of t / (u, v)); every sympy.integrate call is captured and its integrand and limits are "
+        text="Only the structural clause: the six circulation/flux routines are evaluated abstractly with field values, curls and divergences that are "
+             "generic functions OF THE POINT and generic parametrisations (undefined functions of t / (u, v)), so that where a field is evaluated is decided too; every sympy.integrate call is captured and its integrand and limits are "
              "decided, in exact normal form, to be the differential forms Stokes', Green's and Gauss' theorems are about (A.dr, A.(r_u x r_v), "
              "flux of curl over the same surface, A_x y' - A_y x', div F |r_u x r_v|, div F h1h2h3 with each variable paired with its own "
              "limits); no assumption-forcing simplification (posify, force=True) touches an integrand factor. A wrong integrand, normal "
@@ -134,24 +140,27 @@ CLAIMS = {
              "inverse to each other and equal to the normalised position derivatives, Lame coefficients are the lengths of the position "
              "derivatives; angle entries stay on one branch (direct = via the third system and A->B->A = identity entry by entry: exact modulo 2 pi, "
              "the branch on a grid covering every sign pattern and the coordinate planes); convert_point/convert_vector are evaluated abstractly "
-             "against these tables for all nine ordered pairs (coordinates inserted at once); TypeError fall-through.",
+             "against these tables for all nine ordered pairs (coordinates inserted at once); no identity-keyed result cache, no iterable traversed twice; "
+             "TypeError fall-through.",
         note="Behaviour ON the singular sets (z axis, origin, azimuth cut) is not decided; inequalities are reported only with a numeric witness "
              "computed on the terms read from the source.",
         technique="dict/tuple literals (through helpers, Mod, Piecewise) read into terms; exact algebra with radicals and sin/cos of atan2/acos; "
                   "abstract evaluation of convert.py", ref="DESIGN.md §2 C15"),
     "C16": dict(
-        text="Refusals by CFG dominance; the rearrangement formula is decided in a finite-sum abstraction: for every length 1..4 and every "
-             "position of the unknown, with generic vectors and coefficients, the returned equation satisfies lhs - rhs = expr/scale (or "
-             "-expr), i.e. it is equivalent to the input for all coefficient values; solve_for_scalar never disables SymPy's verification of "
+        text="solve_for_vector is evaluated abstractly as a whole in a finite-sum abstraction: for every length 1..4 and every position of the unknown, "
+             "for vectors occurring in several terms, coefficients that mention the unknown and Eq inputs, with generic vectors and coefficients, the "
+             "returned equation satisfies lhs - rhs = expr/scale (or -expr), i.e. it is equivalent to the input for all coefficient values; non-vector "
+             "inputs and missing unknowns end in a raise; solve_for_scalar never disables SymPy's verification of "
              "solutions; is_vector_expr refuses products of two or more vectors.",
         note="Assumes into_terms/split_factor return the (vector, coefficient) decomposition; solve_for_scalar's solver and vector_equals' simplify are trusted.",
-        technique="CFG dominance + abstract evaluation of the formula tail over generic coefficients + exact normal form", ref="DESIGN.md §2 C16"),
+        technique="abstract evaluation of the whole function over generic (vector, coefficient) terms + exact normal form; structural rules for apply/solve_for_scalar/is_vector_expr", ref="DESIGN.md §2 C16"),
     "C18": dict(
         text="The well-formedness clause: by induction over the custom LaTeX printer, every emitted template (26) and every display_latex/"
              "subscript literal embedded verbatim (870+) is brace- and \\left/\\right-balanced, and LaTeX strings are only composed, never cut, "
              "so concatenations of balanced sub-results stay balanced. Plus three necessary conditions of the value clause that are visible in "
              "the code: an outer exponent passed to a printer method is used on every path, numbers are never rounded/re-formatted, no f-string "
-             "emits an unsubstituted {placeholder}.",
+             "emits an unsubstituted {placeholder}, subscripts are attached as braced groups, the number separator is decided on rendered text, "
+             "no sign is taken out of a power base without an odd-exponent test.",
         note="Meaning preservation as a whole is NOT claimed (depends on SymPy predicates over run-time trees); SymPy's own LatexPrinter is trusted to be balanced.",
         technique="template extraction from f-strings/%-formats/literals + balance check (structural induction)", ref="DESIGN.md §2 C18"),
     "C19": dict(
@@ -167,7 +176,8 @@ CLAIMS = {
         text="Finite table decided exhaustively: all 27 constants are folded from their source expressions over SymPy's unit tables "
              "(parsed from SymPy's source) to an SI value and a dimension vector and compared with a CODATA-2018/IAU reference table at "
              "the precision each literal states; the seven identities of the property are evaluated on the folded values; the unit system's "
-             "per-quantity tables are written only by Quantity.__init__ for self (who-may-call) and quantity names come from one process-wide counter.",
+             "per-quantity tables are written only by Quantity.__init__ for self (who-may-call), the initialiser is never re-run explicitly, and quantity "
+             "names come from one process-wide counter.",
         note="Reference table and tolerances are hard-coded in sa/rules/c20.py; corruption below the stated precision is invisible.",
         technique="static constant folding over unit tables read from source; who-may-call scan of the unit-system setters", ref="DESIGN.md §2 C20"),
 }
